@@ -286,7 +286,7 @@ fn clock_sized(run: &str) -> Option<u128> {
 
 /// Large numbers that the input itself explains: every number written in the expression, alone or
 /// multiplied by a size unit.
-fn input_constants(subject: &str) -> std::collections::BTreeSet<u128> {
+pub fn input_constants(subject: &str) -> std::collections::BTreeSet<u128> {
     let mut out = std::collections::BTreeSet::new();
     // the unit multipliers themselves appear in size tests
     out.extend([1u128 << 30, 1 << 40]);
